@@ -26,6 +26,17 @@ int main(int argc, char **argv) {
     v_install_crash_handlers();
     IN = malloc(4096); IN2 = malloc(512); OUT = malloc(8192); OUT2 = malloc(8192); gh = malloc(crypto_generichash_statebytes() + 64);
     unsigned long long l; int r;
+    /* block counters of the vector backends: every batch offset across 2^32, the sign bit of the low word, high words */
+    { static const size_t WL[] = { 192, 256, 320, 511, 512, 576, 768, 1024, 1088 };
+      static const unsigned long long IC[] = { 0xffffffffULL, 0xfffffffeULL, 0xfffffffdULL, 0xfffffffcULL, 0xfffffffbULL, 0xfffffffaULL, 0xfffffff9ULL, 0xfffffff8ULL, 0xfffffff7ULL,
+                                               0x7ffffffbULL, 0x7fffffffULL, 0x80000000ULL, 0xfeffffffULL, 0x1fffffffeULL, 0xffffffff7ffffffeULL };
+      unsigned char *k = IN2, *np = IN2 + 64;
+      for (size_t a = 0; a < sizeof WL / sizeof WL[0]; a++) for (size_t c = 0; c < sizeof IC / sizeof IC[0]; c++) { size_t n = WL[a]; unsigned long long ic = IC[c];
+        fresh("stream_chacha20_xor_ic_ctr", n, c); r = crypto_stream_chacha20_xor_ic(OUT, IN, n, np, ic, k); emit("stream_chacha20_xor_ic_ctr", n, c, r, OUT, n);
+        fresh("stream_salsa20_xor_ic_ctr", n, c); r = crypto_stream_salsa20_xor_ic(OUT, IN, n, np, ic, k); emit("stream_salsa20_xor_ic_ctr", n, c, r, OUT, n);
+        fresh("stream_xchacha20_xor_ic_ctr", n, c); r = crypto_stream_xchacha20_xor_ic(OUT, IN, n, np, ic, k); emit("stream_xchacha20_xor_ic_ctr", n, c, r, OUT, n);
+        fresh("stream_xsalsa20_xor_ic_ctr", n, c); r = crypto_stream_xsalsa20_xor_ic(OUT, IN, n, np, ic, k); emit("stream_xsalsa20_xor_ic_ctr", n, c, r, OUT, n);
+        if (ic <= 0xffffffffULL && (n + 63) / 64 <= 0x100000000ULL - ic) { fresh("stream_chacha20_ietf_xor_ic_ctr", n, c); r = crypto_stream_chacha20_ietf_xor_ic(OUT, IN, n, np, (uint32_t) ic, k); emit("stream_chacha20_ietf_xor_ic_ctr", n, c, r, OUT, n); } } }
     for (size_t i = 0; i < nlens(); i++) {
         size_t n = LENS_ALL[i]; unsigned char *k = IN2, *np = IN2 + 64;
         fresh("hash_sha256", n, 0); r = crypto_hash_sha256(OUT, IN, n); emit("hash_sha256", n, 0, r, OUT, 32);
@@ -41,11 +52,6 @@ int main(int argc, char **argv) {
         fresh("shorthash", n, 0); r = crypto_shorthash(OUT, IN, n, k); emit("shorthash", n, 0, r, OUT, 8);
         fresh("shorthash_x", n, 0); r = crypto_shorthash_siphashx24(OUT, IN, n, k); emit("shorthash_x", n, 0, r, OUT, 16);
         fresh("stream_chacha20", n, 0); r = crypto_stream_chacha20(OUT, n, np, k); emit("stream_chacha20", n, 0, r, OUT, n);
-        if (n >= 192) for (unsigned kk = 1; kk <= 9; kk++) {     /* batches of the vector backends crossing 2^32 in the block counter */
-            fresh("stream_chacha20_xor_ic_wrap", n, kk); r = crypto_stream_chacha20_xor_ic(OUT, IN, n, np, 0x100000000ULL - kk, k); emit("stream_chacha20_xor_ic_wrap", n, kk, r, OUT, n);
-            fresh("stream_salsa20_xor_ic_wrap", n, kk); r = crypto_stream_salsa20_xor_ic(OUT, IN, n, np, 0x100000000ULL - kk, k); emit("stream_salsa20_xor_ic_wrap", n, kk, r, OUT, n);
-            fresh("stream_xchacha20_xor_ic_wrap", n, kk); r = crypto_stream_xchacha20_xor_ic(OUT, IN, n, np, 0x100000000ULL - kk, k); emit("stream_xchacha20_xor_ic_wrap", n, kk, r, OUT, n);
-            if ((n + 63) / 64 <= kk) { fresh("stream_chacha20_ietf_xor_ic_end", n, kk); r = crypto_stream_chacha20_ietf_xor_ic(OUT, IN, n, np, (uint32_t) (0x100000000ULL - kk), k); emit("stream_chacha20_ietf_xor_ic_end", n, kk, r, OUT, n); } }
         fresh("stream_chacha20_xor_ic", n, 0); r = crypto_stream_chacha20_xor_ic(OUT, IN, n, np, 0xfffffffeULL + n, k); emit("stream_chacha20_xor_ic", n, 0, r, OUT, n);
         fresh("stream_chacha20_ietf_xor_ic", n, 0); r = crypto_stream_chacha20_ietf_xor_ic(OUT, IN, n, np, 7, k); emit("stream_chacha20_ietf_xor_ic", n, 0, r, OUT, n);
         fresh("stream_xchacha20_xor", n, 0); r = crypto_stream_xchacha20_xor(OUT, IN, n, np, k); emit("stream_xchacha20_xor", n, 0, r, OUT, n);
